@@ -191,3 +191,79 @@ theorem lead_count_le_one (c : Shard) (hwf : (c.replicas.map (·.replicaId)).Nod
 #print axioms at_most_one_leader_id
 #print axioms lead_count_le_one
 end Drummer
+
+/-! ## the time a member was first seen survives the merge of a newer membership, and the two passes after it -/
+namespace Drummer
+
+/-- one merge (`syncShard`): a member of the old view that is a member of the new one keeps its first-seen time (and its
+    whole record); only members the old view did not have are given the current time -/
+theorem sync_keeps_first_observed (c c' : Shard) (ci : ShardInfo) (t : Nat) (rej : Bool)
+    (hwf : (c.replicas.map (·.replicaId)).Nodup) (hs : c.sync ci t = .ok (rej, c')) :
+    ∀ r ∈ c.replicas, ∀ r' ∈ c'.replicas, r'.replicaId = r.replicaId → r' = r := by
+  unfold Shard.sync at hs
+  by_cases h1 : c.cci > ci.cci
+  · simp only [h1, if_true] at hs
+    cases hs
+    intro r hr r' hr' hid
+    have h1 := list_find?_eq_some_of_mem c.replicas hwf r hr
+    have h2 := list_find?_eq_some_of_mem c.replicas hwf r' hr'
+    rw [hid] at h2
+    rw [h1] at h2
+    cases h2; rfl
+  · simp only [h1, if_false] at hs
+    split at hs
+    · cases hs
+    · split at hs
+      · cases hs
+      · split at hs
+        · cases hs
+        · split at hs
+          · cases hs
+          · cases hs
+            intro r hr r' hr' hid
+            simp only [List.mem_append, List.mem_filter, List.mem_map] at hr'
+            rcases hr' with ⟨hm, _⟩ | ⟨p, hp, rfl⟩
+            · have h1 := list_find?_eq_some_of_mem c.replicas hwf r hr
+              have h2 := list_find?_eq_some_of_mem c.replicas hwf r' hm
+              rw [hid] at h2
+              rw [h1] at h2
+              cases h2; rfl
+            · -- an added member has an id the old view does not know
+              exfalso
+              simp only [List.mem_filter, Option.isNone_iff_eq_none] at hp
+              have := (find?_none_iff c p.1).mp hp.2 r hr
+              exact this hid.symm
+
+/-- the stamping pass and the leader pass rewrite report times and leader flags only -/
+theorem updateNodeTick_first_observed (mc : MultiShard) (nhi : NodeHostInfo) :
+    ∀ c' ∈ (updateNodeTick mc nhi).shards, ∃ c ∈ mc.shards, c.shardId = c'.shardId ∧ c.cci = c'.cci ∧
+      c'.replicas.map (fun r => (r.replicaId, r.address, r.firstObserved)) =
+        c.replicas.map (fun r => (r.replicaId, r.address, r.firstObserved)) := by
+  unfold updateNodeTick
+  generalize nhi.shardInfo = infos
+  induction infos generalizing mc with
+  | nil => intro c' hc'; exact ⟨c', hc', rfl, rfl, rfl⟩
+  | cons ci rest ih =>
+    intro c' hc'
+    simp only [List.foldl_cons] at hc'
+    obtain ⟨c1, hc1, hid1, hcc1, hm1⟩ := ih _ c' hc'
+    -- one step
+    cases hf : mc.find? ci.shardId with
+    | none => simp only [hf] at hc1; exact ⟨c1, hc1, hid1, hcc1, hm1⟩
+    | some ec =>
+      simp only [hf] at hc1
+      split at hc1
+      · rcases (mem_put _ _ _).mp hc1 with rfl | ⟨hm, _⟩
+        · refine ⟨ec, (find?_mem _ _ _ hf).1, hid1, hcc1, ?_⟩
+          rw [hm1]
+          simp only [List.map_map]
+          apply List.map_congr_left
+          intro r _
+          simp only [Function.comp]
+          split <;> rfl
+        · exact ⟨c1, hm, hid1, hcc1, hm1⟩
+      · exact ⟨c1, hc1, hid1, hcc1, hm1⟩
+
+#print axioms sync_keeps_first_observed
+#print axioms updateNodeTick_first_observed
+end Drummer
